@@ -89,6 +89,19 @@ theorem completed_invocation_is_durable {σ μ : Type} (c : Cfg σ μ) (hc : c.L
   · rw [hx, ha]
   · rw [hdone] at hs; cases hs
 
+/-- **a mere process kill loses nothing**: without garbling, at every prefix of every history the next
+start loads exactly the newest snapshot whose rename to the uncommitted name is part of the prefix
+(`Dur.durable`), however far its commit got.  This is where `adler_roundtrip` is needed. -/
+theorem kill_loses_nothing {σ μ : Type} (c : Cfg σ μ) (hc : c.Lawful) (hist : List (List (Call μ))) (n : Nat) :
+    let evs := (runHist c FS.empty hist).take n
+    (initRun c (recover (applyOps FS.empty (evOps evs)) (fun _ d => d))).res =
+      .ok (Dur.run ⟨none, none⟩ evs).durable := by
+  intro evs
+  have h0 : K c FS.empty (⟨none, none⟩ : Dur σ) := ⟨none, Or.inl ⟨rfl, rfl⟩, Or.inl ⟨rfl, rfl⟩⟩
+  have h := AllPreD_take (runHistK c hc FS.empty ⟨none, none⟩ hist h0) n
+  rw [← applyEvs_ops]
+  exact (initK c hc _ _ (K_kill c _ _ h)).2 (recover_lock _ _)
+
 /-- the same after any number of earlier crashes: sessions are complete invocations or invocations cut at
 an arbitrary event and crashed with a detectable garbling (then recovered).  After a history that ends
 in a crash, the next start loads an admissible state. -/
